@@ -1305,10 +1305,11 @@ def corpus_cases():
 
 
 def gen():
-    import c18_bits, c18_tidy, c18_setup
+    import c18_bits, c18_tidy, c18_setup, c18_shrink
     c18_bits.generate()
     c18_tidy.generate()
     c18_setup.generate()
+    c18_shrink.generate()
 
 
 _seen_keys = set()
@@ -1353,6 +1354,19 @@ def analyse(ctx, cases, res, stats):
                           "punch_model never calls fpunchf_end_row: the selected-output string has one row per inverse model, the selected-output table has none",
                           {"kind": "input", "input_text": c["text"], "database": dbname(c),
                            "observed": {"string_rows": len(srows), "table_rows": trows}, "expected": "equal numbers of rows"})
+        # the tableau handed to cl1 for every sub-model: engine's shrink() vs the specification of shrink (harness, bit for bit)
+        sh = r.get("shrink") or {}
+        if sh.get("masks"):
+            stats["shrink checks (masks)"] += sh["masks"]
+        if sh.get("mismatches"):
+            stats["shrink differs from specification (problems)"] += 1
+            report(ctx, "C18:shrink-differs-from-specification",
+                   "the tableau / sign vector that shrink() hands to cl1 for a sub-model is not the sub-system of the problem built by setup_inverse "
+                   "(kept columns compacted in order, the dissolve/precipitate and non-negativity constraints travelling with their columns): "
+                   + "; ".join("mask %s: %s" % (bin(x["mask"]), x["what"]) for x in sh.get("first", [])[:2]),
+                   {"kind": "input", "input_text": c["text"], "database": dbname(c),
+                    "observed": {"sub-models checked": sh["masks"], "sub-models with a difference": sh["mismatches"], "first": sh.get("first")},
+                    "expected": "identical sizes, col_back, row_back, sign vector and tableau entries for every sub-model"})
         # replay of the subset search with the real solve_with_mask as tabulated oracle
         if r.get("oracle") and not r.get("oracle_note") and r["problem"] is not None:
             p_ = r["problem"]
@@ -1532,6 +1546,10 @@ def judge(ctx, items, info, coq, stats, reps=None):
                     key = "C18:model-from-failed-solve"
                     what = ("minimal_solve ignores the ERROR return of its last solve_with_mask; solve_inverse then prints the failed solver's "
                             "vector as a model, and it violates mole balance / uncertainty / sign constraints")
+                elif (r.get("shrink") or {}).get("mismatches"):
+                    key = "C18:inadmissible-model:" + "+".join(nonrange) + ":constraint-lost-in-shrink"
+                    what = ("reported inverse model violates the constraint system of the problem (" + ", ".join(nonrange) + "); for this problem "
+                            "shrink() hands cl1 a tableau / sign vector that differs from the specification, so the solver never saw the constraint")
                 else:
                     key = "C18:cl1-accepted-infeasible-vector"
                     what = ("cl1 returned kode 0 for a vector that violates the constraints it was given (its final check never tests the "
